@@ -185,18 +185,17 @@ void minHeap(Case& c) {
   using Heap     = galois::ThreadSafeMinHeap<long, Cmp>;
   bool rangeCtr  = c.rng.below(4) == 0;
   bool distinct  = c.rng.below(2);          // needed for the remove phase (remove of a duplicated value is ambiguous)
-  bool postDrain = c.rng.below(3) == 0;     // remove() on the drained heap must return false
   long range     = c.rng.pick({8L, 1000L, 1000000L});
   size_t npush   = c.rng.pick({(size_t)1, (size_t)20, (size_t)500, (size_t)3000});
   size_t nrem    = distinct ? c.rng.pick({(size_t)0, (size_t)20, (size_t)300}) : 0;
   Plan p1 = makePlan(c), p2 = makePlan(c), p3 = makePlan(c);
   c.begin("ThreadSafeMinHeap",
           J().kv("cmp", cmpName<Cmp>()).kv("range_ctor", rangeCtr).kv("distinct_values", distinct).kv("value_range", range)
-              .kv("pushes", npush).kv("removes_finds", nrem).kv("remove_after_drain", postDrain)
+              .kv("pushes", npush).kv("removes_finds", nrem)
               .kv("plan_push", p1.name() + "@" + std::to_string(p1.threads))
               .kv("plan_pop", p3.name() + "@" + std::to_string(p3.threads)));
   c.sig = std::string("ThreadSafeMinHeap|") + cmpName<Cmp>() + "|rc" + (rangeCtr ? "1" : "0") + "|d" + (distinct ? "1" : "0") +
-          "|" + p1.name() + "@" + std::to_string(p1.threads) + "|pd" + (postDrain ? "1" : "0");
+          "|" + p1.name() + "@" + std::to_string(p1.threads);
   const std::string orderKey = rangeCtr ? "range-ctor-breaks-heap-order" : "wrong-order";
   Cmp cmp;
   std::multiset<long, Cmp> model;
@@ -344,19 +343,46 @@ void minHeap(Case& c) {
     c.add("heap_pops", got.size());
     everPushed.insert(everPushed.end(), want.begin(), want.end());
   }
-  if (postDrain) { // phase 5: the heap is empty: remove(x) must report false for every x and leave it empty
-    std::vector<long> keys;
-    for (size_t i = 0; i < everPushed.size() && keys.size() < 64; i += 1 + everPushed.size() / 64)
-      keys.push_back(everPushed[i]);
-    keys.push_back(everPushed.back()); // the last value popped
-    uint64_t trues = 0;
-    for (size_t i = 0; i < keys.size() && !trues; ++i) // serial; stop at the first wrong answer (the heap is then corrupt)
-      trues += h.remove(keys[i]);
-    if (trues || h.size() != 0 || !h.empty()) {
-      c.viol("remove-on-drained-heap", J().kv("removes_returning_true", trues).kv("size()", (uint64_t)h.size()).kv("empty()", h.empty()));
+  h.clear();
+}
+
+// ------------------------------------------------------------------ ThreadSafeMinHeap: remove() after the heap was drained
+// (own component: with asserts on, the library aborts here, which must not cost the other heap cases their coverage)
+void drainedRemove(Case& c) {
+  using Heap   = galois::ThreadSafeMinHeap<long>;
+  size_t npush = c.rng.pick({(size_t)1, (size_t)2, (size_t)40, (size_t)600});
+  Plan p1 = makePlan(c), p3 = makePlan(c);
+  c.begin("ThreadSafeMinHeap.drained-remove",
+          J().kv("pushes", npush).kv("plan_push", p1.name() + "@" + std::to_string(p1.threads))
+              .kv("plan_pop", p3.name() + "@" + std::to_string(p3.threads)));
+  c.sig = "ThreadSafeMinHeap.drained-remove|n" + std::to_string(npush) + "|" + p1.name() + "@" + std::to_string(p1.threads);
+  Heap h;
+  std::vector<long> val(npush), ret(npush);
+  for (auto& v : val)
+    v = (long)c.rng.below(1000);
+  execPlan(c, p1, npush, [&](uint32_t i, unsigned) { h.push(val[i]); });
+  execPlan(c, p3, npush, [&](uint32_t i, unsigned) { ret[i] = h.pop(); });
+  c.add("heap_pushes", npush);
+  c.add("heap_pops", npush);
+  std::vector<long> a = val, b = ret;
+  std::sort(a.begin(), a.end());
+  std::sort(b.begin(), b.end());
+  if (a != b || !h.empty() || h.size() != 0) {
+    c.viol("drain-mismatch", J().kv("size()", (uint64_t)h.size()));
+    return;
+  }
+  // the heap is empty: remove(x) must report false for every x and leave it empty
+  std::vector<long> keys{-5, 1000000};
+  for (size_t i = 0; i < a.size() && keys.size() < 40; i += 1 + a.size() / 32)
+    keys.push_back(a[i]);
+  keys.push_back(a.back()); // the largest value = the last one popped
+  for (long k : keys) {     // serial; stop at the first wrong answer (the heap is then corrupt)
+    bool r = h.remove(k);
+    c.add("heap_removes_on_empty", 1);
+    if (r || h.size() != 0 || !h.empty()) {
+      c.viol("remove-returns-true", J().kv("value", k).kv("returned", r).kv("size()", (uint64_t)h.size()).kv("empty()", h.empty()));
       return;
     }
-    c.add("heap_removes_on_empty", keys.size());
   }
   h.clear();
 }
@@ -506,7 +532,8 @@ void run_sets(Case& c, int which) {
     if (g) minHeap<std::greater<long>>(c);
     else minHeap<std::less<long>>(c);
     break;
-  default: unionFind(c); break;
+  case 2: unionFind(c); break;
+  default: drainedRemove(c); break;
   }
 }
 
